@@ -3,6 +3,8 @@
   symmetric band system it is given, whenever every pivot it divides by is non-zero.
 -/
 import Jb.Model.Mlpg
+import Jb.Proofs.LdlAux
+import Mathlib.Data.List.GetD
 import Mathlib.Algebra.Order.Field.Basic
 import Mathlib.Algebra.BigOperators.Intervals
 import Mathlib.Tactic.Ring
@@ -12,6 +14,8 @@ import Mathlib.Tactic.FieldSimp
 set_option linter.unusedSectionVars false
 
 namespace Jb
+
+open Finset
 
 variable {K : Type} [Field K] [LinearOrder K] [IsStrictOrderedRing K]
 
@@ -23,6 +27,410 @@ def bandMulVec (w : Nat) (rows : List (List K)) (c : List K) (t : Nat) : K :=
   (Finset.range w).sum (fun j => if t + j < rows.length then bandAt rows t j * c.getD (t + j) 0 else 0) +
   (Finset.range w).sum (fun j => if 1 ≤ j ∧ j ≤ t then bandAt rows (t - j) j * c.getD (t - j) 0 else 0)
 
+/-! ### unfolding the folds of the model -/
+
+theorem foldl_sub_range (f : ℕ → K) (x : K) (n : ℕ) :
+    (List.range n).foldl (fun acc i => acc - f i) x = x - ∑ i ∈ range n, f i := by
+  induction n with
+  | zero => simp
+  | succ n ih =>
+    rw [List.range_succ, List.foldl_append, ih, sum_range_succ]
+    simp only [List.foldl_cons, List.foldl_nil]
+    ring
+
+theorem ldlRow_length (w : ℕ) (hw : 1 ≤ w) (prev : List (List K)) (row : List K) :
+    (ldlRow w prev row).length = w := by
+  simp only [ldlRow, List.length_cons, List.length_map, List.length_range]
+  omega
+
+theorem ldlRow_getD_zero (w : ℕ) (prev : List (List K)) (row : List K) :
+    (ldlRow w prev row).getD 0 0 = row.getD 0 0 -
+      ∑ i0 ∈ range (min w (prev.length + 1) - 1),
+        (prev.getD i0 []).getD (i0 + 1) 0 * (prev.getD i0 []).getD (i0 + 1) 0
+          * (prev.getD i0 []).getD 0 0 := by
+  simp only [ldlRow, List.getD_cons_zero]
+  rw [foldl_sub_range]
+
+theorem ldlRow_getD_succ (w : ℕ) (prev : List (List K)) (row : List K) (j : ℕ) (hj : j + 1 < w) :
+    (ldlRow w prev row).getD (j + 1) 0 = (row.getD (j + 1) 0 -
+      ∑ i0 ∈ range (min (w - (j + 1)) (prev.length + 1) - 1),
+        (prev.getD i0 []).getD (i0 + 1) 0 * (prev.getD i0 []).getD (j + 1 + (i0 + 1)) 0
+          * (prev.getD i0 []).getD 0 0) / (ldlRow w prev row).getD 0 0 := by
+  have hj' : j < w - 1 := by omega
+  simp only [ldlRow, List.getD_cons_zero, List.getD_cons_succ]
+  rw [List.getD_eq_getElem?_getD, List.getElem?_map, List.getElem?_range hj']
+  simp only [Option.map_some, Option.getD_some]
+  rw [foldl_sub_range]
+
+theorem ldlRows_snoc (w : ℕ) (rows : List (List K)) (row : List K) :
+    ldlRows w (rows ++ [row]) = ldlRows w rows ++ [ldlRow w (ldlRows w rows).reverse row] := by
+  simp [ldlRows, List.foldl_append]
+
+theorem ldlRows_length (w : ℕ) (rows : List (List K)) : (ldlRows w rows).length = rows.length := by
+  induction rows using List.reverseRecOn with
+  | nil => simp [ldlRows]
+  | append_singleton rows row ih => rw [ldlRows_snoc]; simp [ih]
+
+theorem getD_take_reverse {β : Type} (L : List β) (t i0 : ℕ) (ht : t ≤ L.length) (hi : i0 < t) (d : β) :
+    (L.take t).reverse.getD i0 d = L.getD (t - 1 - i0) d := by
+  grind
+
+theorem ldlRows_getD (w : ℕ) (rows : List (List K)) (t : ℕ) (ht : t < rows.length) :
+    (ldlRows w rows).getD t [] =
+      ldlRow w ((ldlRows w rows).take t).reverse (rows.getD t []) := by
+  induction rows using List.reverseRecOn with
+  | nil => simp at ht
+  | append_singleton rows row ih =>
+    rw [ldlRows_snoc]
+    simp only [List.length_append, List.length_singleton] at ht
+    rcases Nat.lt_or_ge t rows.length with h | h
+    · rw [List.getD_append _ _ _ _ (by rw [ldlRows_length]; exact h),
+        List.getD_append _ _ _ _ h, ih h,
+        List.take_append_of_le_length (by rw [ldlRows_length]; omega)]
+    · have : t = rows.length := by omega
+      subst this
+      rw [List.getD_append_right _ _ _ _ (by rw [ldlRows_length]),
+        List.getD_append_right _ _ _ _ (le_refl _), ldlRows_length]
+      simp [ldlRows_length]
+
+theorem bandAt_ldlRows_high (w : ℕ) (hw : 1 ≤ w) (rows : List (List K)) (k j : ℕ) (hj : w ≤ j) :
+    bandAt (ldlRows w rows) k j = 0 := by
+  unfold bandAt
+  rcases Nat.lt_or_ge k rows.length with h | h
+  · rw [ldlRows_getD w rows k h]
+    exact List.getD_eq_default _ _ (by rw [ldlRow_length w hw]; exact hj)
+  · have h0 : (ldlRows w rows).getD k [] = [] :=
+      List.getD_eq_default _ _ (by rw [ldlRows_length]; exact h)
+    rw [h0]
+    simp
+
+theorem bandAt_high (w : ℕ) (rows : List (List K)) (hrow : ∀ row ∈ rows, row.length = w)
+    (k j : ℕ) (hj : w ≤ j) : bandAt rows k j = 0 := by
+  unfold bandAt
+  rcases Nat.lt_or_ge k rows.length with h | h
+  · rw [List.getD_eq_getElem _ _ h]
+    exact List.getD_eq_default _ _ (by rw [hrow _ (List.getElem_mem h)]; exact hj)
+  · rw [List.getD_eq_default _ _ h]
+    simp
+
+theorem ldl_prev_length (w : ℕ) (rows : List (List K)) (t : ℕ) (ht : t < rows.length) :
+    ((ldlRows w rows).take t).reverse.length = t := by
+  rw [List.length_reverse, List.length_take, ldlRows_length]
+  omega
+
+/-- pivot recurrence, unbounded form -/
+theorem ldl_Rd (w : ℕ) (hw : 1 ≤ w) (rows : List (List K)) (t : ℕ) (ht : t < rows.length) :
+    bandAt (ldlRows w rows) t 0 = bandAt rows t 0 -
+      ∑ k ∈ range t, bandAt (ldlRows w rows) k (t - k) * bandAt (ldlRows w rows) k (t - k)
+        * bandAt (ldlRows w rows) k 0 := by
+  have hz : ∀ i, min w (t + 1) - 1 ≤ i → i < t →
+      (fun k => bandAt (ldlRows w rows) k (t - k) * bandAt (ldlRows w rows) k (t - k)
+        * bandAt (ldlRows w rows) k 0) (t - 1 - i) = 0 := by
+    intro i h1 h2
+    simp only
+    rw [bandAt_ldlRows_high w hw rows _ _ (by omega)]
+    ring
+  rw [← sum_recent_eq _ (by omega) hz]
+  conv_lhs => rw [bandAt, ldlRows_getD w rows t ht, ldlRow_getD_zero, ldl_prev_length w rows t ht]
+  congr 1
+  apply sum_congr rfl
+  intro i0 hi
+  simp only [mem_range] at hi
+  have hi' : i0 < t := by omega
+  have h2 : t - (t - 1 - i0) = i0 + 1 := by omega
+  rw [getD_take_reverse _ _ _ (by rw [ldlRows_length]; omega) hi']
+  simp only [bandAt, h2]
+
+/-- off-diagonal recurrence, unbounded form -/
+theorem ldl_Rl (w : ℕ) (hw : 1 ≤ w) (rows : List (List K)) (hrow : ∀ row ∈ rows, row.length = w)
+    (t : ℕ) (ht : t < rows.length) (hd : bandAt (ldlRows w rows) t 0 ≠ 0) (j : ℕ) (hj : 1 ≤ j) :
+    bandAt (ldlRows w rows) t j * bandAt (ldlRows w rows) t 0 = bandAt rows t j -
+      ∑ k ∈ range t, bandAt (ldlRows w rows) k (t - k) * bandAt (ldlRows w rows) k (t - k + j)
+        * bandAt (ldlRows w rows) k 0 := by
+  rcases Nat.lt_or_ge j w with hjw | hjw
+  · have hz : ∀ i, min (w - j) (t + 1) - 1 ≤ i → i < t →
+        (fun k => bandAt (ldlRows w rows) k (t - k) * bandAt (ldlRows w rows) k (t - k + j)
+          * bandAt (ldlRows w rows) k 0) (t - 1 - i) = 0 := by
+      intro i h1 h2
+      simp only
+      rw [bandAt_ldlRows_high w hw rows _ (t - (t - 1 - i) + j) (by omega)]
+      ring
+    rw [← sum_recent_eq _ (by omega) hz]
+    obtain ⟨j', rfl⟩ : ∃ j', j = j' + 1 := ⟨j - 1, by omega⟩
+    have hL : bandAt (ldlRows w rows) t (j' + 1) =
+        (ldlRow w ((ldlRows w rows).take t).reverse (rows.getD t [])).getD (j' + 1) 0 := by
+      rw [bandAt, ldlRows_getD w rows t ht]
+    have hD : bandAt (ldlRows w rows) t 0 =
+        (ldlRow w ((ldlRows w rows).take t).reverse (rows.getD t [])).getD 0 0 := by
+      rw [bandAt, ldlRows_getD w rows t ht]
+    rw [hD] at hd
+    rw [hL, hD, ldlRow_getD_succ w _ _ j' hjw, div_mul_cancel₀ _ hd, ldl_prev_length w rows t ht]
+    congr 1
+    apply sum_congr rfl
+    intro i0 hi
+    simp only [mem_range] at hi
+    have hi' : i0 < t := by omega
+    have h2 : t - (t - 1 - i0) = i0 + 1 := by omega
+    have h3 : i0 + 1 + (j' + 1) = j' + 1 + (i0 + 1) := by omega
+    rw [getD_take_reverse _ _ _ (by rw [ldlRows_length]; omega) hi']
+    simp only [bandAt, h2, h3]
+  · rw [bandAt_ldlRows_high w hw rows t j hjw, bandAt_high w rows hrow t j hjw, zero_mul]
+    symm
+    rw [sub_eq_zero]
+    symm
+    apply sum_eq_zero
+    intro k _
+    rw [bandAt_ldlRows_high w hw rows k (t - k + j) (by omega)]
+    ring
+
+/-! ### forward substitution -/
+
+/-- the fold step of `forwardSub`, with the inner fold already summed -/
+def fwdStep (w : ℕ) (st : List (List K) × List K) (x : List K × K) : List (List K) × List K :=
+  (x.1 :: st.1,
+    (x.2 - ∑ i0 ∈ range (min w (st.2.length + 1) - 1),
+      (st.1.getD i0 []).getD (i0 + 1) 0 * st.2.getD i0 0) :: st.2)
+
+def fwd (w : ℕ) (xs : List (List K × K)) : List (List K) × List K :=
+  xs.foldl (fwdStep w) ([], [])
+
+theorem forwardSub_eq (w : ℕ) (lrows : List (List K)) (r : List K) :
+    forwardSub w lrows r = (fwd w (lrows.zip r)).2.reverse := by
+  simp only [forwardSub, fwd]
+  congr 3
+  funext st x
+  rcases st with ⟨a, b⟩
+  simp only [fwdStep]
+  rw [foldl_sub_range]
+
+theorem fwd_snoc (w : ℕ) (xs : List (List K × K)) (x : List K × K) :
+    fwd w (xs ++ [x]) = fwdStep w (fwd w xs) x := by
+  simp [fwd, List.foldl_append]
+
+theorem fwd_fst (w : ℕ) (xs : List (List K × K)) : (fwd w xs).1 = (xs.map Prod.fst).reverse := by
+  induction xs using List.reverseRecOn with
+  | nil => simp [fwd]
+  | append_singleton xs x ih => rw [fwd_snoc]; simp [fwdStep, ih]
+
+theorem fwd_snd_length (w : ℕ) (xs : List (List K × K)) : (fwd w xs).2.length = xs.length := by
+  induction xs using List.reverseRecOn with
+  | nil => simp [fwd]
+  | append_singleton xs x ih => rw [fwd_snoc]; simp [fwdStep, ih]
+
+theorem fwd_spec (w : ℕ) (xs : List (List K × K)) (t : ℕ) (ht : t < xs.length) :
+    (fwd w xs).2.reverse.getD t 0 = (xs.getD t ([], 0)).2 -
+      ∑ i0 ∈ range (min w (t + 1) - 1),
+        ((xs.getD (t - 1 - i0) ([], 0)).1).getD (i0 + 1) 0
+          * (fwd w xs).2.reverse.getD (t - 1 - i0) 0 := by
+  induction xs using List.reverseRecOn with
+  | nil => simp at ht
+  | append_singleton xs x ih =>
+    simp only [List.length_append, List.length_singleton] at ht
+    have hG : (fwd w (xs ++ [x])).2.reverse = (fwd w xs).2.reverse ++
+        [x.2 - ∑ i0 ∈ range (min w (xs.length + 1) - 1),
+          ((fwd w xs).1.getD i0 []).getD (i0 + 1) 0 * (fwd w xs).2.getD i0 0] := by
+      rw [fwd_snoc]
+      simp [fwdStep, fwd_snd_length]
+    have hlen : (fwd w xs).2.reverse.length = xs.length := by
+      rw [List.length_reverse, fwd_snd_length]
+    rw [hG]
+    rcases Nat.lt_or_ge t xs.length with h | h
+    · rw [List.getD_append _ _ _ _ (by rw [hlen]; exact h), List.getD_append _ _ _ _ h, ih h]
+      congr 1
+      apply sum_congr rfl
+      intro i0 _
+      rw [List.getD_append (fwd w xs).2.reverse _ _ _ (by rw [hlen]; omega),
+        List.getD_append xs _ _ _ (by omega)]
+    · have : t = xs.length := by omega
+      subst this
+      rw [List.getD_append_right _ _ _ _ (by rw [hlen]),
+        List.getD_append_right _ _ _ _ (le_refl _), hlen]
+      simp only [Nat.sub_self, List.getD_cons_zero]
+      congr 1
+      apply sum_congr rfl
+      intro i0 hi
+      simp only [mem_range] at hi
+      have hi' : i0 < xs.length := by omega
+      rw [List.getD_append (fwd w xs).2.reverse _ _ _ (by rw [hlen]; omega),
+        List.getD_append xs _ _ _ (by omega)]
+      rw [fwd_fst, List.getD_reverse _ (by rw [List.length_map]; exact hi'), List.length_map]
+      rw [List.getD_reverse (l := (fwd w xs).2) _ (by rw [fwd_snd_length]; omega), fwd_snd_length]
+      have h5 : xs.length - 1 - (xs.length - 1 - i0) = i0 := by omega
+      rw [h5]
+      congr 2
+      exact List.getD_map xs (([], 0) : List K × K) Prod.fst
+
+/-! ### backward substitution -/
+
+def bwd (w : ℕ) (xs : List (List K × K)) : List K :=
+  xs.foldr (fun x acc =>
+    (x.2 / x.1.getD 0 0 - ∑ i0 ∈ range (min w (acc.length + 1) - 1),
+      x.1.getD (i0 + 1) 0 * acc.getD i0 0) :: acc) []
+
+theorem backwardSub_eq (w : ℕ) (lrows : List (List K)) (g : List K) :
+    backwardSub w lrows g = bwd w (lrows.zip g) := by
+  unfold backwardSub bwd
+  congr 1
+  funext x acc
+  rw [foldl_sub_range]
+
+theorem bwd_length (w : ℕ) (xs : List (List K × K)) : (bwd w xs).length = xs.length := by
+  induction xs with
+  | nil => simp [bwd]
+  | cons x xs ih => simp only [bwd, List.foldr_cons, List.length_cons] at ih ⊢; rw [ih]
+
+theorem bwd_cons (w : ℕ) (x : List K × K) (xs : List (List K × K)) :
+    bwd w (x :: xs) = (x.2 / x.1.getD 0 0 - ∑ i0 ∈ range (min w (xs.length + 1) - 1),
+      x.1.getD (i0 + 1) 0 * (bwd w xs).getD i0 0) :: bwd w xs := by
+  rw [← bwd_length w xs]
+  rfl
+
+theorem bwd_spec (w : ℕ) (xs : List (List K × K)) (t : ℕ) (ht : t < xs.length) :
+    (bwd w xs).getD t 0 = (xs.getD t ([], 0)).2 / (xs.getD t ([], 0)).1.getD 0 0 -
+      ∑ i0 ∈ range (min w (xs.length - t) - 1),
+        (xs.getD t ([], 0)).1.getD (i0 + 1) 0 * (bwd w xs).getD (t + 1 + i0) 0 := by
+  induction xs generalizing t with
+  | nil => simp at ht
+  | cons x xs ih =>
+    rw [bwd_cons]
+    cases t with
+    | zero =>
+      simp only [List.getD_cons_zero, List.length_cons, Nat.sub_zero, Nat.zero_add]
+      congr 1
+      apply sum_congr rfl
+      intro i0 _
+      rw [Nat.add_comm 1 i0, List.getD_cons_succ]
+    | succ t =>
+      simp only [List.length_cons, Nat.add_lt_add_iff_right] at ht
+      simp only [List.getD_cons_succ, List.length_cons, Nat.add_sub_add_right]
+      rw [ih t ht]
+      congr 1
+      apply sum_congr rfl
+      intro i0 _
+      have : t + 1 + 1 + i0 = (t + 1 + i0) + 1 := by omega
+      rw [this, List.getD_cons_succ]
+
+/-! ### assembling -/
+
+theorem getD_zip {β γ : Type} (as : List β) (bs : List γ) (t : ℕ) (h1 : t < as.length)
+    (h2 : t < bs.length) (a : β) (b : γ) :
+    (as.zip bs).getD t (a, b) = (as.getD t a, bs.getD t b) := by
+  grind
+
+theorem forwardSub_length (w : ℕ) (lrows : List (List K)) (r : List K) :
+    (forwardSub w lrows r).length = min lrows.length r.length := by
+  rw [forwardSub_eq, List.length_reverse, fwd_snd_length, List.length_zip]
+
+theorem backwardSub_length (w : ℕ) (lrows : List (List K)) (g : List K) :
+    (backwardSub w lrows g).length = min lrows.length g.length := by
+  rw [backwardSub_eq, bwd_length, List.length_zip]
+
+/-- forward recurrence, unbounded form -/
+theorem ldl_Rg (w : ℕ) (hw : 1 ≤ w) (rows : List (List K)) (r : List K)
+    (hr : r.length = rows.length) (t : ℕ) (ht : t < rows.length) :
+    (forwardSub w (ldlRows w rows) r).getD t 0 = r.getD t 0 -
+      ∑ k ∈ range t, bandAt (ldlRows w rows) k (t - k)
+        * (forwardSub w (ldlRows w rows) r).getD k 0 := by
+  have hz : ∀ i, min w (t + 1) - 1 ≤ i → i < t →
+      (fun k => bandAt (ldlRows w rows) k (t - k)
+        * (forwardSub w (ldlRows w rows) r).getD k 0) (t - 1 - i) = 0 := by
+    intro i h1 h2
+    simp only
+    rw [bandAt_ldlRows_high w hw rows _ _ (by omega)]
+    ring
+  rw [← sum_recent_eq _ (by omega) hz]
+  have hL := ldlRows_length w rows
+  simp only [forwardSub_eq]
+  rw [fwd_spec w _ t (by rw [List.length_zip]; omega), getD_zip _ _ _ (by omega) (by omega)]
+  congr 1
+  apply sum_congr rfl
+  intro i0 hi
+  simp only [mem_range] at hi
+  have h2 : t - (t - 1 - i0) = i0 + 1 := by omega
+  rw [getD_zip _ _ _ (by omega) (by omega)]
+  simp only [bandAt, h2]
+
+/-- backward recurrence, unbounded form -/
+theorem ldl_Rc (w : ℕ) (hw : 1 ≤ w) (rows : List (List K)) (g : List K)
+    (hg : g.length = rows.length) (t : ℕ) (ht : t < rows.length)
+    (hd : bandAt (ldlRows w rows) t 0 ≠ 0) :
+    g.getD t 0 = bandAt (ldlRows w rows) t 0 *
+      ((backwardSub w (ldlRows w rows) g).getD t 0 +
+        ∑ i ∈ range (rows.length - 1 - t), bandAt (ldlRows w rows) t (i + 1)
+          * (backwardSub w (ldlRows w rows) g).getD (t + 1 + i) 0) := by
+  have hL := ldlRows_length w rows
+  have hz : ∀ j, min w (rows.length - t) - 1 ≤ j → j < rows.length - 1 - t →
+      (fun i => bandAt (ldlRows w rows) t (i + 1)
+          * (backwardSub w (ldlRows w rows) g).getD (t + 1 + i) 0) j = 0 := by
+    intro j h1 h2
+    simp only
+    rw [bandAt_ldlRows_high w hw rows _ _ (by omega)]
+    ring
+  rw [← sum_range_extend _ (by omega) hz]
+  simp only [backwardSub_eq]
+  have hlen : (List.zip (ldlRows w rows) g).length = rows.length := by
+    rw [List.length_zip]; omega
+  rw [bwd_spec w _ t (by omega), getD_zip _ _ _ (by omega) (by omega), hlen]
+  simp only [bandAt] at hd ⊢
+  rw [sub_add_cancel, mul_div_cancel₀ _ hd]
+
+theorem bandMulVec_eq (w : ℕ) (hw : 1 ≤ w) (rows : List (List K))
+    (hrow : ∀ row ∈ rows, row.length = w) (c : List K) (t : ℕ) (ht : t < rows.length) :
+    bandMulVec w rows c t =
+      (∑ s ∈ range t, bandAt rows s (t - s) * c.getD s 0) +
+        (∑ i ∈ range (rows.length - t), bandAt rows t i * c.getD (t + i) 0) := by
+  unfold bandMulVec
+  rw [add_comm]
+  congr 1
+  · -- lower part
+    have hz : ∀ i, min (w - 1) t ≤ i → i < t →
+        (fun s => bandAt rows s (t - s) * c.getD s 0) (t - 1 - i) = 0 := by
+      intro i h1 h2
+      simp only
+      rw [bandAt_high w rows hrow _ _ (by omega)]
+      ring
+    rw [← sum_recent_eq (fun s => bandAt rows s (t - s) * c.getD s 0) (Nat.min_le_right _ _) hz]
+    have hw' : w = (w - 1) + 1 := by omega
+    conv_lhs => rw [hw', sum_range_succ']
+    simp only [Nat.le_zero_eq, Nat.one_ne_zero, false_and, if_false, add_zero]
+    have hz2 : ∀ i, min (w - 1) t ≤ i → i < w - 1 →
+        (fun i => if 1 ≤ i + 1 ∧ i + 1 ≤ t then
+          bandAt rows (t - (i + 1)) (i + 1) * c.getD (t - (i + 1)) 0 else 0) i = 0 := by
+      intro i h1 h2
+      have : ¬ (1 ≤ i + 1 ∧ i + 1 ≤ t) := by omega
+      simp only [this, if_false]
+    rw [← sum_range_extend (fun i => if 1 ≤ i + 1 ∧ i + 1 ≤ t then
+          bandAt rows (t - (i + 1)) (i + 1) * c.getD (t - (i + 1)) 0 else 0) (Nat.min_le_left _ _) hz2]
+    apply sum_congr rfl
+    intro i hi
+    simp only [mem_range] at hi
+    have h1 : 1 ≤ i + 1 ∧ i + 1 ≤ t := by omega
+    have e1 : t - (i + 1) = t - 1 - i := by omega
+    have e2 : t - (t - 1 - i) = i + 1 := by omega
+    simp only [h1, and_self, if_true, e1, e2]
+  · -- upper part
+    have hz : ∀ j, min w (rows.length - t) ≤ j → j < rows.length - t →
+        (fun i => bandAt rows t i * c.getD (t + i) 0) j = 0 := by
+      intro j h1 h2
+      simp only
+      rw [bandAt_high w rows hrow _ _ (by omega)]
+      ring
+    rw [← sum_range_extend (fun i => bandAt rows t i * c.getD (t + i) 0) (Nat.min_le_right _ _) hz]
+    have hz2 : ∀ j, min w (rows.length - t) ≤ j → j < w →
+        (fun j => if t + j < rows.length then bandAt rows t j * c.getD (t + j) 0 else 0) j = 0 := by
+      intro j h1 h2
+      have : ¬ (t + j < rows.length) := by omega
+      simp only [this, if_false]
+    rw [← sum_range_extend
+      (fun j => if t + j < rows.length then bandAt rows t j * c.getD (t + j) 0 else 0)
+      (Nat.min_le_left _ _) hz2]
+    apply sum_congr rfl
+    intro j hj
+    simp only [mem_range] at hj
+    have h1 : t + j < rows.length := by omega
+    simp only [h1, if_true]
+
+
 /-- **LDLᵀ solves.** -/
 theorem ldl_solves (w : Nat) (hw : 1 ≤ w) (rows : List (List K)) (r : List K)
     (hr : r.length = rows.length) (hrow : ∀ row ∈ rows, row.length = w)
@@ -30,6 +438,22 @@ theorem ldl_solves (w : Nat) (hw : 1 ≤ w) (rows : List (List K)) (r : List K)
     let l := ldlRows w rows
     let c := backwardSub w l (forwardSub w l r)
     c.length = rows.length ∧ ∀ t, t < rows.length → bandMulVec w rows c t = r.getD t 0 := by
-  sorry
+  intro l c
+  have hL : l.length = rows.length := ldlRows_length w rows
+  have hG : (forwardSub w l r).length = rows.length := by
+    rw [forwardSub_length]; omega
+  have hC : c.length = rows.length := by
+    show (backwardSub w l (forwardSub w l r)).length = rows.length
+    rw [backwardSub_length]; omega
+  refine ⟨hC, ?_⟩
+  intro t ht
+  rw [bandMulVec_eq w hw rows hrow c t ht]
+  exact band_solve_abstract rows.length (bandAt rows) (bandAt l) (fun t => bandAt l t 0)
+    (fun t => (forwardSub w l r).getD t 0) (fun t => r.getD t 0) (fun t => c.getD t 0)
+    (fun t ht => ldl_Rd w hw rows t ht)
+    (fun t ht j hj => ldl_Rl w hw rows hrow t ht (hpiv t ht) j hj)
+    (fun t ht => ldl_Rg w hw rows r hr t ht)
+    (fun t ht => ldl_Rc w hw rows (forwardSub w l r) hG t ht (hpiv t ht))
+    t ht
 
 end Jb
